@@ -16,9 +16,14 @@ fails, n, nontrivial = [], 0, 0
 t0 = time.time()
 
 
+# the property on whose behalf the script runs (C12: labels are those the grammar assigned; C15: the XML readers re-derive their labels through this function)
+_props = [p for p in os.environ.get('VERIF_PROPS', '').split(',') if p]
+_PROP = 'C12' if (not _props or 'C12' in _props) else _props[0]
+
+
 def fail(kind, **w):
     if len(fails) < 8:
-        fails.append(dict(prop='C12', kind=kind, witness={k: (v if isinstance(v, (int, float, str, list, dict, bool, type(None))) else repr(v)) for k, v in w.items()}))
+        fails.append(dict(prop=_PROP, kind=kind, witness={k: (v if isinstance(v, (int, float, str, list, dict, bool, type(None))) else repr(v)) for k, v in w.items()}))
 
 
 md = os.path.join(REPO, 'depccg/models')
